@@ -115,6 +115,18 @@ def handle (j : Json) : Except String Json := do
     match db.count c v with
     | .ok n => pure (Json.mkObj [("ok", jNat n)])
     | .error e => pure (Json.mkObj [("err", jStr (errStr e))])
+  | "counts" =>
+    -- count(c, v) for every value of a list; `total` = sum of the counts of the distinct values of the column
+    let db ← parseDB (← j.getObjVal? "db")
+    let c ← getStr j "col"
+    let vs ← floatList (← j.getObjVal? "values")
+    match db.counts c vs, colIdx db.t.cols c with
+    | .ok ns, some jj =>
+      let col := db.t.column jj
+      pure (Json.mkObj [("ok", jNats ns), ("distinct", jNat (dedup col).length),
+        ("total", jNat (((dedup col).map fun v => col.countP fun x => Num.eq x v).sum))])
+    | .error e, _ => pure (Json.mkObj [("err", jStr (errStr e))])
+    | _, _ => throw "bad-op"
   | "groups" =>
     -- count_number_of_groups
     let vals ← floatList (← j.getObjVal? "values")
